@@ -152,6 +152,8 @@ var vpC08Pool = []string{
 	"3000000000000000000000000000000001 / 2 - 1500000000000000000000000000000000",
 	"1000000000000000000000000000000000 + 0.5 == 1000000000000000000000000000000000",
 	"1 / 3 * 3 == 1", "round(2.5) + roundBank(2.5) + round(-0.5)", "7.25 + 1", "[2.5, 9.75 * 2, 0.125 + 0.125]", "toString(1 / 3)", "2.5 % 1 + ceil(1.2) + floor(-1.2)",
+	"($a = this, $b = this, '' + this)", "($a = this, $b = this, $c = [this], toString([1, this]))",
+	"(q.x).y", "((q)).x", "max((q.x).y, 1)", "(q.x + 1).k", "toString(q) + toString([q, q])",
 }
 
 // C08/pool: state-sensitive formulas evaluated three times in fresh runners,
@@ -173,13 +175,19 @@ func VP_C08_pool() {
 	vpFreezeGlobals()
 	eval := func() (interface{}, string) {
 		r := NewRunner()
-		r.SetThis(map[string]interface{}{"s": s})
+		r.SetThis(map[string]interface{}{"s": s, "q": map[string]interface{}{"x": map[string]interface{}{"y": 4, "z": 5}, "w": 6}})
 		v, e := r.Resolve(context.Background(), code.Expression)
+		ResolveReferenceFields(code)
+		ResolveReferenceFieldsNotLocal(code)
 		return v, vpErrText2(e)
 	}
+	twin, terr := ParseSourceCode([]byte(text))
 	v1, e1 := eval()
 	w1 := vpUnrelatedWork()
+	// the second evaluation iterates maps in the opposite order (Go leaves the order unspecified)
+	vpReverseMapOrder(true)
 	v2, e2 := eval()
+	vpReverseMapOrder(false)
 	w2 := vpUnrelatedWork()
 	vpAssert("C08/pool/unrelated-work-same-every-time", w1 == w2 && (w1 == base || !workFirst))
 	v3, e3 := eval()
@@ -189,5 +197,7 @@ func VP_C08_pool() {
 	if e1 == "" && e2 == "" && e3 == "" {
 		vpAssert("C08/pool/same-value-every-time", vpDeepEq(v1, v2) && vpDeepEq(v2, v3))
 	}
+	// evaluation and field analysis leave the tree unchanged: it still equals a fresh parse of the same text
+	vpAssert("C08/pool/tree-unchanged", terr == nil && twin != nil && vpSameImplTree(code.Expression, twin.Expression) && vpSameImplTree(twin.Expression, code.Expression))
 	vpReach("C08/pool/done")
 }
